@@ -32,6 +32,18 @@ CHECKS = {
         design="§5 C09"),
 }
 
+CHECKS["C10"] = dict(
+    text="Proof: representation invariant of the linear hash table (tommy_hashlin: stable/grow/shrink, split index, every node in the bucket "
+         "of its key, count) preserved by insert+grow step and remove+shrink step for any hash function and any history; search finds exactly "
+         "the stored nodes; the router-key table refines a finite set of (AS, SKI, key, source) records for every history of add/remove/"
+         "src_remove/copy/swap/notify_diff/free incl. return codes (history_refines); get_all / search_by_ski return exactly the matching keys; "
+         "the callback log replays to the contents (spki_log_replays) and notify_diff reports exactly the net difference. Tie: literal model vs "
+         "ht-spkitable.c + tommyhashlin.c incl. internal observables (count, bucket_bit, split, state, bucket order) after every op.",
+    note=TB + "bucket[bsr][pos] segment arithmetic flattened to an index; counts are Nat (agrees with C while count < 2^29); locks and "
+         "allocation failure not modelled here (C16, C18); spki_table_free emits no removal callbacks (modelled literally, free excluded from log histories).",
+    technique="Lean 4 invariant + refinement proofs over a literal model of tommy_hashlin and ht-spkitable + differential correspondence",
+    design="§5 C10")
+
 NOT_YET = {}
 
 
